@@ -870,7 +870,7 @@ class NumpyModel:
     np_radians = np_deg2rad
 
     def np_isnan(self, x):
-        return vec(lambda u: Guard("isnan", u) if not u.is_const() else False, x)
+        return vec(lambda u: True if u == NAN else (Guard("isnan", u) if not u.is_const() else False), x)
 
     def np_logical_and(self, a, b):
         if isinstance(a, Mask) and isinstance(b, Mask):
